@@ -313,6 +313,30 @@ func (t *treeConc) spawn(fr *frame, instr *ssa.Go, fn value, args []value) {
 	default:
 		unsupported("go statement with %T", fn)
 	}
+	// goroutines started from one go statement with different captured scalars
+	// (a loop index, say) behave differently: they are separate templates
+	var sig []string
+	scal := func(v value) {
+		if p, ok := v.(*value); ok && p != nil {
+			v = *p
+		}
+		if k, ok := kindOf(v); ok && !isSym(v) {
+			if _, _, isInt := kindInfo(k); isInt || k == types.Bool {
+				sig = append(sig, fmt.Sprint(v))
+			}
+		}
+	}
+	if cl, ok := fn.(*closure); ok {
+		for _, b := range cl.Env {
+			scal(b)
+		}
+	}
+	for _, a := range args {
+		scal(a)
+	}
+	if len(sig) > 0 {
+		name += "#" + strings.Join(sig, ",")
+	}
 	t.spawns = append(t.spawns, spawnRec{name, fn, args})
 	t.emit(Event{Kind: "spawn", Template: name, Pos: t.pos(fr)})
 }
